@@ -310,6 +310,12 @@ def setups(chk, drv, g):
             deg = [rng.randint(1, 3) for _ in range(4)]
             npts = [rng.randint(d + 1, 9) for d in deg]
         size = rng.randint(1, 8)
+        if it < 6:
+            # only a degenerate grid is admissible: (1, p) resp. (p, 1) with p prime and larger than the extent of the other direction
+            deg = [1, 1, 1, 1]
+            small, big = rng.choice([2, 3]), [rng.randint(7, 9) for _ in range(2)]
+            npts = [small, rng.randint(2, 6), big[0], big[1]] if it % 2 == 0 else [big[0], rng.randint(2, 6), small, big[1]]
+            size = rng.choice([5, 7])
         lay = rng.choice(NAMES)
         if HANGS[0] > MAX_HANGS:
             break
@@ -349,7 +355,8 @@ def setups(chk, drv, g):
             chk.fail('C20:grid-but-none-exists', 'setupCylindricalGrid builds layouts although no valid factorisation exists', case,
                      actual=vals[0]['nprocs'])
             continue
-        n1, n2 = vals[0]['nprocs'][:2]
+        # (a direction with one process may be left out of the handler's grid: it distributes nothing)
+        n1, n2 = (list(vals[0]['nprocs']) + [1, 1])[:2]
         if n1 * n2 != size or any(v['nprocs'] != vals[0]['nprocs'] for v in vals) or any(v['ext'] != npts for v in vals):
             chk.fail('C20:invalid-grid', 'process grid of the built layouts does not multiply to the process count / differs between ranks', case,
                      actual=[v['nprocs'] for v in vals])
@@ -413,12 +420,19 @@ def restart_setups(chk, drv, g):
                 V = valid_set(m1, m2, size)
                 case = {'npts': npts, 'mpi_size': size, 'path': 'setupFromFile'}
 
+                # several simulations side by side: the world is split into `groups` communicators of `size` processes, each restarts on its own
+                groups = 2 if (size <= 5 and rng.random() < 0.5) else 1
+                if groups > 1:
+                    case['simulations_side_by_side'] = groups
+
                 def body():
-                    comm = MPI.COMM_WORLD
+                    world = MPI.COMM_WORLD
+                    comm = world if groups == 1 else world.Split(world.Get_rank() // size, world.Get_rank())
                     grid, consts, t = setupFromFile(folder, comm=comm, allocateSaveMemory=True)
                     lm = grid._layout_manager
-                    return {'nprocs': [int(x) for x in lm.nProcs], 'shapes': {n: [int(x) for x in lm.getLayout(n).shape] for n in NAMES}}
-                res = MPI.run(size, body, policy='random', seed=it)
+                    return {'nprocs': [int(x) for x in lm.nProcs], 'shapes': {n: [int(x) for x in lm.getLayout(n).shape] for n in NAMES},
+                            'own': int(np.prod(grid._f.shape))}
+                res = MPI.run(size * groups, body, policy='random', seed=it)
                 chk.count('restart set-up ranks=%d: %s' % (size, 'built' if res.ok else 'refused'))
                 chk.case(('restart-setup', tuple(npts), size), nontrivial=size > 1 and bool(V))
                 if not res.ok:
@@ -430,10 +444,19 @@ def restart_setups(chk, drv, g):
                         chk.fail('C20:setup-other-error', 'no factorisation exists, expected RuntimeError(%s), got %s' % (MSG, err[:160]), case)
                     continue
                 vals = res.values()
+                if groups > 1 and vals[size:] != vals[:size]:
+                    chk.fail('C20:invalid-grid', 'two simulations restarted side by side on equal communicators get different layouts', case,
+                             actual=[v['nprocs'] for v in vals])
+                    continue
+                vals = vals[:size]
+                if V and sum(v['own'] for v in vals) != int(np.prod(npts)):
+                    chk.fail('C20:layout-not-a-partition', 'after setupFromFile the blocks held by the processes of one simulation do not add up to the global size',
+                             case, expected=int(np.prod(npts)), actual=sum(v['own'] for v in vals))
+                    continue
                 if not V:
                     chk.fail('C20:grid-but-none-exists', 'setupFromFile builds layouts although no valid factorisation exists', case, actual=vals[0]['nprocs'])
                     continue
-                n1, n2 = vals[0]['nprocs'][:2]
+                n1, n2 = (list(vals[0]['nprocs']) + [1, 1])[:2]
                 if n1 * n2 != size or (n1, n2) not in V:
                     chk.fail('C20:invalid-grid', 'process grid chosen by setupFromFile is not a valid factorisation', case, actual=[n1, n2])
                     continue
